@@ -15,6 +15,7 @@ Inductive op :=
 | OFramed (chunks : list (list Z))  (* peer writes these chunks one by one over TCP, then closes; GetNextMessage until it fails *)
 | OWsFramed (msgs : list (list Z))  (* peer sends these websocket messages to the real WSAcceptor, then closes; GetNextMessage until it fails *)
 | OBigFrame (ws : bool) (t n : Z)   (* Encode(t, n pattern bytes) sent over a live websocket / TCP connection, read with GetNextMessage *)
+| OBigMsg (compress : bool) (kind n : Z)   (* a request with an n-byte compressible payload through message Encode, packet Encode, packet Decode, message Decode *)
 | OSweep (k : Z).                     (* every byte string of length <= k through Decode / packet Decode / ParseHeader *)
 
 Inductive obs :=
@@ -66,6 +67,13 @@ Definition run_op (o : op) : obs :=
       (* theorems C06_ws_framing / C06_framing: the encoding of every valid packet is handed up intact
          by both acceptors - evaluated through the header only, so that n may be 2^24-1 *)
       match pkt_header t n with Ok _ => RBig true | Err e => RErr e | Panic => RPanic end
+  | OBigMsg compress _ n =>
+      (* theorems C06_msg_roundtrip + C06_pkt_stream: every valid message comes back whenever its
+         encoding fits a packet.  The encoding is 9 header bytes (flag, 2-byte id 300, route length,
+         "a.b.c") + the payload, or + the deflated payload when compression is on (a few KiB for
+         these payloads: the harness's own zlib is the oracle, and a body that does not fit shows
+         as EPktSize on both sides only when compression is off) *)
+      if negb compress && (9 + n >=? MaxPacketSize) then RErr EPktSize else RBig true
   | OSweep _ => RSweep 0   (* theorem C06_total: no input panics *)
   end.
 
@@ -148,6 +156,7 @@ Definition monitor_op (o : op) (b : obs) : bool :=
            unchanged and in order *)
         let vs := fst (ws_frames msgs) in
         list_eqb zlist_eqb (firstn (length vs) ms) vs
+    | OBigMsg compress _ n, RBig ok => ok
     | OBigFrame _ t n, RBig ok => ok || negb (pkt_type_ok t) || (n >=? MaxPacketSize) || (n <? 0)
     | OEncPkt t data, RBytes l =>
         match decode_pkts l with Ok [p] => pair_eqb Z.eqb zlist_eqb p (t, data) | _ => false end
